@@ -573,11 +573,17 @@ def correspond(ctx):
         cases.append({"kind": kind, "text": text, "env": env, "nounset": nounset, "sandbox": sandbox, "tools": tools})
 
     r = ctx.subrng("corr")
-    for c in tree_cases(ctx, ctx.scale(8000, 200000), "corr-tree"):
+    for n_c, c in enumerate(tree_cases(ctx, ctx.scale(8000, 200000), "corr-tree")):
+        if n_c > 2000 and ctx.time_left() < 0.25 * ctx.budget:
+            ctx.skip("correspondence tree stream cut by the time budget")
+            break
         add(c["text"], c["env"], c["nounset"], c["sandbox"], c["tools"], "tree")
         if r.random() < 0.5:
             add(mutate(r, c["text"]), c["env"], c["nounset"], c["sandbox"], c["tools"], "mutated")
     for i in range(ctx.scale(10000, 300000)):
+        if i > 2000 and ctx.time_left() < 0.15 * ctx.budget:
+            ctx.skip("correspondence raw stream cut by the time budget")
+            break
         add(gen_raw(r), r.choice(ENVS), r.random() < 0.5, r.random() < 0.5, TOOLS, "raw")
     for i in range(ctx.scale(3000, 60000)):
         s = gen_plain(r)
